@@ -153,7 +153,7 @@ NT = 8
 DANGLING = (1 << 64) - 1
 
 
-DERIVED_BUNDLES = {10: (1, 2), 11: (2, 1), 12: (0, 4, 3), 13: (6, 5, 7, 1), 14: (3,), 15: (1, 1)}
+DERIVED_BUNDLES = {10: (1, 2), 11: (2, 1), 12: (0, 4, 3), 13: (6, 5, 7, 1), 14: (3,), 15: (1, 1), 16: (2, 3, 7), 17: (7, 3, 2)}
 DERIVED_BY_TYPES = {v: k for k, v in DERIVED_BUNDLES.items() if k != 15}
 
 
@@ -217,7 +217,7 @@ class WorldGen:
         """returns (encoding, types, has repeated types)"""
         if derived and types is None and self.r.random() < 0.12:
             # a derived Bundle struct (kinds 10..15; 15 names a type twice): fields in the declared order
-            kind = self.r.choice([10, 11, 12, 13, 14, 15] if allow_dup else [10, 11, 12, 13, 14])
+            kind = self.r.choice([10, 11, 12, 13, 14, 15, 16, 17] if allow_dup else [10, 11, 12, 13, 14, 16, 17])
             ts = DERIVED_BUNDLES[kind]
             return BEnc([kind, len(ts)] + [x for t in ts for x in (t, self.val())]), list(ts), kind == 15
         if allow_dup and self.r.random() < 0.5:
@@ -343,8 +343,16 @@ class WorldGen:
                 ts = r.choice(ok) if ok else r.choice(cands)
             else:
                 ts = r.choice(cands)
+            skind = 0
+            if r.random() < 0.12:
+                # S is a derived Bundle struct: partial misses (an earlier field present, a later one absent) matter
+                skind = r.choice([10, 11, 12, 13, 14, 16, 17])
+                ts = DERIVED_BUNDLES[skind]
             if op == 3:
-                self.emit(4, w, h, len(ts), list(ts))
+                if skind:
+                    self.emit(24, w, h, skind, len(ts), list(ts))
+                else:
+                    self.emit(4, w, h, len(ts), list(ts))
                 self.materialise(w)
                 if e is not None and e["alive"] and e["world"] == w:
                     if len(set(ts)) != len(ts):
@@ -352,7 +360,7 @@ class WorldGen:
                     elif set(ts) <= e["types"]:
                         e["types"] -= set(ts)
             else:
-                if r.random() < 0.6:
+                if skind == 0 and r.random() < 0.6:
                     tt = r.choice(EXT)
                     if len(set(tt)) != len(tt) and not bad:
                         tt = (1,)
@@ -361,7 +369,10 @@ class WorldGen:
                 else:
                     its = self.pick_types(r.randrange(0, 3))
                     enc = BEnc([2, len(its)] + [x for t in its for x in (t, self.val())])
-                self.emit(5, w, h, len(ts), list(ts), enc)
+                if skind:
+                    self.emit(25, w, h, skind, len(ts), list(ts), enc)
+                else:
+                    self.emit(5, w, h, len(ts), list(ts), enc)
                 self.materialise(w)
                 if e is not None and e["alive"] and e["world"] == w:
                     if len(set(ts)) != len(ts) or (set(ts) <= e["types"] and len(set(its)) != len(its)):
@@ -459,7 +470,7 @@ def query_op(g, paths):
         return
     qi = r.randrange(len(QUERIES)) if r.random() < 0.55 else r.randrange(24)
     path = r.choice(paths)
-    arg = r.choice(BATCH_SIZES) if path in (3, 10) else (r.randrange(40) + (1000 if r.random() < 0.15 else 0)) if path == 9 else 0
+    arg = r.choice(BATCH_SIZES) if path in (3, 10) else (r.randrange(40) + (1000 if r.random() < 0.15 else 0)) if path in (9, 11) else 0
     g.emit(30, w, qi, path, arg, len(QASTS[qi]), QASTS[qi])
 
 
@@ -503,10 +514,11 @@ def nontrivial_world(case, obs):
 
 WORLD_RULE = ("engine world: seeded scripts of 4..140 operations over two worlds and 8 component layouts (ZST, "
               "ZST with alignment 8, 4/8-byte, heap-owning, align-64, 24-byte align-1, 320-byte): spawn (static tuples in "
-              "any field order from a 68-type catalogue, 6 derived Bundle structs, EntityBuilder bundles), spawn_at, insert, remove, exchange, "
+              "any field order from a 68-type catalogue, 8 derived Bundle structs, EntityBuilder bundles), spawn_at, insert, remove, exchange, "
               "despawn, take (dropped / moved to the other world), clear, reserve_entity/entities, flush, reserve::<T>, "
               "spawn_batch, spawn_column_batch(_at) (iterators consumed fully or dropped after k handles), Extend; handles named by table "
-              "index or forged bit patterns; single-component calls go through insert_one/remove_one/exchange_one; mostly-valid "
+              "index or forged bit patterns; single-component calls go through insert_one/remove_one/exchange_one; remove/exchange "
+              "also with a derived struct as the removed bundle; mostly-valid "
               "stream plus a share of invalid calls (dead/foreign/forged/reserved handles, missing components, repeated "
               "types). After every k-th operation both sides dump len, iteration, archetypes with row order, the "
               "allocator's meta/pending/cursor (cfg(hecs_verif) snapshot) and probe contains/entity/get/view for a set "
@@ -901,7 +913,7 @@ def guard_case(universe, rnd, nworld, nguard, conflict_free=False):
             i = r.choice(cs) if cs and r.random() < 0.8 else r.randrange(len(slots))
             g.emit(112, i); slots.append(dict(kind="c?", qidx=0, w=w))
         else:
-            bi = r.randrange(len(BAD_ASTS)); path = r.randrange(5)
+            bi = r.randrange(len(BAD_ASTS)); path = r.randrange(7)
             g.emit(113, path * 100 + bi, len(BAD_ASTS[bi]), BAD_ASTS[bi])
         g.emit(114)
     g.emit(115)
